@@ -1103,7 +1103,7 @@ func runForced(kind string) (*streamResult, error) {
 	sub := d0.subByName(subName)
 	cl := &streamClient{out: map[uuid.UUID]int{}, maxM: maxM, maxB: 100000}
 	conn := &scriptConn{in: make(chan *actions.MessageStreamRequest), closed: make(chan struct{}), cl: cl}
-	sctx, cancel := context.WithCancel(ctx)
+	sctx, cancel := context.WithCancel(context.WithValue(ctx, actorKey{}, "stream"))
 	defer cancel()
 	ms := &actions.MessageStreamer{Client: e.Client, SubscriptionID: &sub.ID, SubscriptionName: subName, AutomaticNack: true}
 	done := make(chan error, 1)
@@ -1165,10 +1165,23 @@ func runForced(kind string) (*streamResult, error) {
 				}
 			}
 		case "refresh-race", "two-external-acks":
-			if k == KQuery && !after && strings.Contains(q, "`deliveries`.`id` IN") && strings.Contains(q, "`completed_at` IS NULL") {
+			// (two-external-acks holds the refresher AFTER its read: it has seen the first
+			// acknowledgement only, the second commits before it goes on)
+			// (only the STREAM's own read: the Acknowledge action issues a query of the same shape)
+			if a, _ := ctx.Value(actorKey{}).(string); a != "stream" {
+				return nil
+			}
+			want := KQuery
+			if kind == "two-external-acks" {
+				want = KRowsDone // (the rows have been read: SQLite steps lazily)
+			}
+			if k == want && after == (kind == "two-external-acks") && strings.Contains(q, "`deliveries`.`id` IN") && strings.Contains(q, "`completed_at` IS NULL") {
 				hmu.Lock()
 				armed = false
 				hmu.Unlock()
+				if os.Getenv("VERIF_DEBUG") != "" {
+					fmt.Fprintf(os.Stderr, "HOLD %s after=%v: %.300s\n", kind, after, q)
+				}
 				hold()
 			}
 		}
@@ -1209,7 +1222,7 @@ func runForced(kind string) (*streamResult, error) {
 		// the stream's refresh of its pending set (triggered by the first) is reading: the
 		// second acknowledgement's wake-up must not be lost -- both slots are free afterwards
 		b := held[1]
-		cl.note("Acknowledge %s outside the stream; the refresher is held at its query", a.String()[:8])
+		cl.note("Acknowledge %s outside the stream; the refresher is held right after its read", a.String()[:8])
 		cl.settle([]uuid.UUID{a})
 		d, _ := e.dumpR(ctx)
 		go e.Exec(ctx, &Op{Kind: "Ack", Name: subName, AckIDs: []string{a.String()}}, d)
